@@ -5,21 +5,26 @@ package util
 // Contracts for the verification framework in /verif (comment-only file; compiled
 // only with -tags verif, where it contributes nothing but these comments).
 
-//@ // cryptographic and parsing helpers are uninterpreted: their contracts are assumed, not verified
+//@ // cryptographic and parsing helpers are uninterpreted: their functional contracts are assumed, not verified; their bodies
+//@ // are under the no-panic sweep all the same (a trusted contract tagged C20 is executed in panic mode)
 //@ func CalculateHash(input) (res)
 //@   trusted
 //@   ensures res == sha256hex(input) && len(res) == 64
+//@   prop C20
 //@ func ExtractFieldFromJSON(jsonInput, field) (res, err)
 //@   trusted
 //@   ensures err == nil ==> res == jsonField(jsonInput, field)
+//@   prop C20
 //@ func GetSignatureAlgorithmFromString(name) (alg, err)
 //@   trusted
 //@   ensures (err == nil) == algKnown(name)
 //@   ensures err == nil ==> alg == algOf(name)
+//@   prop C20
 //@ func GetUserCertificateFromString(inputCert) (cert, err)
 //@   trusted
 //@   ensures (err == nil) == certOk(inputCert)
 //@   ensures err == nil ==> cert != nil && certSource(cert) == inputCert
+//@   prop C20
 //@
 //@ // HashConcat joins its arguments with ':' — verified for the argument lists used (2 and 3 strings)
 //@ spec func joinColon(row [int]str, n int) str = n <= 1 ? row[0] : joinColon(row, n - 1) + ":" + row[n - 1]
